@@ -55,9 +55,9 @@ Viol(rec) ==
               ELSE LET k == rec.ub.step
                        c == rec.ub.class
                        predictedOob == k >= 1 /\ k <= Len(rec.aw) /\ rec.aw[k].oob
-                       key == IF c = "oob" /\ predictedOob THEN FamOob \o "|out-of-bounds-write"
+                       key == IF c = "oob" /\ predictedOob THEN FamOob \o "|out-of-bounds"
                               ELSE IF c \in {"heap-corruption", "signal", "segv", "double-free", "oob", "use-after-free"} /\ oobSoFar(k)
-                                   THEN FamOob \o "|after-out-of-bounds-write|" \o c
+                                   THEN FamOob \o "|crash-after-out-of-bounds-write"
                               ELSE IF c = "misaligned" /\ k <= Len(rec.allocs) /\ rec.allocs[k].align > 1
                                    THEN FamAlign \o "|misaligned-reference"
                               ELSE "C38|unpredicted|" \o rec.status \o ":" \o c
